@@ -1,5 +1,6 @@
-(* C10 — codec contract over histories. Property theorems only (Props format).
-   To be included from Props/C10.v by the integrator (same content, `exact` proofs only). *)
+(* C10 — codec contract over histories. Property theorems only.
+   Models: Contract/CtrFrames.v (frame loops), Contract/CtrDataflow.v (field dataflow of one coder
+   object, hand summaries of jpeg2000.Encoder / jpeg2000.Decoder); facts: Gen/Facts_gen.v. *)
 From Coq Require Import String List Bool Arith.
 Import ListNotations.
 From V Require Import Common.Base Contract.CtrFrames Contract.CtrProofsFrames
@@ -99,49 +100,81 @@ Theorem C10_reused_object : forall (D A : Type) app app0 appendD (cfg : list fie
 Proof. exact reused_object_inv_step. Qed.
 Print Assumptions C10_reused_object.
 
-(* jpeg2000.Encoder: the regenerated facts are covered by the hand summary, the summary is
-   self-initialising (computed), hence history independent for every interpretation *)
+(* without caches: the output is determined by the argument and the current configuration *)
+Theorem C10_config_determines_output : forall (D A : Type) app app0 appendD (cfg : list field) (c : call),
+  self_initialising cfg c = true -> memo_list (c_steps c) = [] ->
+  forall (r r' : rec D) (a : A), agree D cfg r r' ->
+    snd (exec_call D A app app0 appendD a r c) = snd (exec_call D A app app0 appendD a r' c).
+Proof. exact config_determines_output. Qed.
+Print Assumptions C10_config_determines_output.
+
+(* the regenerated write/read-site facts of jpeg2000.Decoder and jpeg2000.Encoder are all
+   accounted for by the hand summaries (re-proved on every run; a new field or write site
+   breaks it) *)
 Theorem C10_facts_cover : decoder_facts_cover = true /\ encoder_facts_cover = true.
 Proof. exact facts_cover. Qed.
 Print Assumptions C10_facts_cover.
 
+(* jpeg2000.Encoder: the summary is self-initialising (computed), hence one Encoder object
+   reused over any number of frames and calls codes every frame as a new encoder would *)
 Theorem C10_encoder_history_independent :
-  forall (D A : Type) app app0 appendD (r0 : rec D),
-    (forall f, In f qcd_fields -> r0 f = None) ->
-    forall (h : list (call * A)) (a : A),
-      Forall (fun ca => In (fst ca) [encoder_encode]) h ->
-      snd (exec_call D A app app0 appendD a (run_history D A app app0 appendD h r0) encoder_encode)
-      = snd (exec_call D A app app0 appendD a r0 encoder_encode).
+  forall (D A : Type) app app0 appendD (r0 : rec D) (h : list (call * A)) (a : A),
+    Forall (fun ca => In (fst ca) [encoder_encode]) h ->
+    snd (exec_call D A app app0 appendD a (run_history D A app app0 appendD h r0) encoder_encode)
+    = snd (exec_call D A app app0 appendD a r0 encoder_encode).
 Proof. exact encoder_history_independent. Qed.
 Print Assumptions C10_encoder_history_independent.
 
-(* ... as long as the parameters the encoder was created with are left alone (FINDING, low
-   severity: the quantisation cache is never invalidated) *)
-Theorem C10_encoder_params_change_refuted :
-  enc_out 1 [(encoder_encode, 7%nat); (encoder_set_params, 2%nat)] 7 <> enc_out 2 [] 7.
-Proof. exact encoder_params_change_refuted. Qed.
-Print Assumptions C10_encoder_params_change_refuted.
-
-(* jpeg2000.Decoder (FINDING): the summary is not self-initialising and the dependence on the
-   history is real: decode a stream with MCC/MCT bindings (or legacy MCT), then a plain one. *)
-Theorem C10_decoder_not_self_initialising : self_initialising decoder_cfg decoder_decode = false.
-Proof. exact decoder_not_self_initialising. Qed.
-Print Assumptions C10_decoder_not_self_initialising.
-
-Theorem C10_decoder_history_refuted :
-  dec_out [(decoder_decode, (true, false))] (false, false) <> dec_out [] (false, false)
-  /\ dec_out [(decoder_decode, (false, true))] (false, false) <> dec_out [] (false, false).
-Proof. exact C10_decoder_history_refuted. Qed.
-Print Assumptions C10_decoder_history_refuted.
-
-(* the suggested repair restores the property in the model *)
-Theorem C10_decoder_fixed_history_independent :
+(* ... also when the caller changes the EncodeParams between calls (finding F25, repaired:
+   Encode clears the quantisation cache; before, the tables of the first call were reused) *)
+Theorem C10_encoder_params_determine_output :
   forall (D A : Type) app app0 appendD (r0 : rec D) (h : list (call * A)) (a : A),
-    Forall (fun ca => In (fst ca) [decoder_decode_fixed]) h ->
-    snd (exec_call D A app app0 appendD a (run_history D A app app0 appendD h r0) decoder_decode_fixed)
-    = snd (exec_call D A app app0 appendD a r0 decoder_decode_fixed).
-Proof. exact decoder_fixed_history_independent. Qed.
-Print Assumptions C10_decoder_fixed_history_independent.
+    Forall (fun ca => In (fst ca) [encoder_encode; encoder_set_params]) h ->
+    let r := run_history D A app app0 appendD h r0 in
+    snd (exec_call D A app app0 appendD a r encoder_encode)
+    = snd (exec_call D A app app0 appendD a (rupd D (fresh D) "params" (r "params")) encoder_encode).
+Proof. exact encoder_params_determine_output. Qed.
+Print Assumptions C10_encoder_params_determine_output.
+
+(* jpeg2000.Decoder (finding F21, repaired: Decode clears bindings, mctInverse, mctOffsets,
+   roiMasks and a stream-derived ROI configuration): self-initialising (computed), hence every
+   Decode on a used Decoder returns what a fresh Decoder configured alike returns.
+   Historical witness: decode a stream with MCT/MCC/MCO markers, then a plain one, on one
+   Decoder — 540 of 768 bytes wrong; see unrepaired_decoder_history_dependent. *)
+Theorem C10_decoder_self_initialising :
+  self_initialising decoder_cfg decoder_decode = true
+  /\ compatible decoder_cfg decoder_decode decoder_decode = true
+  /\ memo_list (c_steps decoder_decode) = [].
+Proof. exact decoder_self_initialising. Qed.
+Print Assumptions C10_decoder_self_initialising.
+
+Theorem C10_decoder_history_independent :
+  forall (D A : Type) app app0 appendD (r0 : rec D) (h : list (call * A)) (a : A),
+    Forall (fun ca => In (fst ca) [decoder_decode]) h ->
+    snd (exec_call D A app app0 appendD a (run_history D A app app0 appendD h r0) decoder_decode)
+    = snd (exec_call D A app app0 appendD a r0 decoder_decode).
+Proof. exact decoder_history_independent. Qed.
+Print Assumptions C10_decoder_history_independent.
+
+Theorem C10_decoder_config_determines_output :
+  forall (D A : Type) app app0 appendD (r r' : rec D) (a : A),
+    agree D decoder_cfg r r' ->
+    snd (exec_call D A app app0 appendD a r decoder_decode)
+    = snd (exec_call D A app app0 appendD a r' decoder_decode).
+Proof. exact decoder_config_determines_output. Qed.
+Print Assumptions C10_decoder_config_determines_output.
+
+(* the criterion discriminates: the summaries of the Decoder and Encoder as they were before
+   the repairs are rejected / depend on their history under a concrete interpretation *)
+Example C10_criterion_nonvacuous :
+  self_initialising decoder_cfg_unrepaired decoder_decode_unrepaired = false
+  /\ dec_out decoder_decode_unrepaired [(decoder_decode_unrepaired, (true, false))] (false, false)
+       <> dec_out decoder_decode_unrepaired [] (false, false)
+  /\ dec_out decoder_decode_unrepaired [(decoder_decode_unrepaired, (false, true))] (false, false)
+       <> dec_out decoder_decode_unrepaired [] (false, false)
+  /\ dec_out decoder_decode [(decoder_decode, (true, false))] (false, false) = dec_out decoder_decode [] (false, false)
+  /\ dec_out decoder_decode [(decoder_decode, (false, true))] (false, false) = dec_out decoder_decode [] (false, false).
+Proof. exact unrepaired_decoder_history_dependent. Qed.
 
 (* lossless syntaxes: frame-wise inverse coders give the source sequence back *)
 Theorem C10_sequence_roundtrip : forall (F O : Type) (enc1 : F -> option O) (dec1 : O -> option F),
@@ -168,3 +201,12 @@ Theorem C10_output_size :
   (forall b, 1 <= b <= 65536 -> rle_bytes_allocated b = bytes_per_sample b).
 Proof. exact (conj rle_decoded_len_even (conj rle_decoded_len_bounds rle_bytes_allocated_ok)). Qed.
 Print Assumptions C10_output_size.
+
+(* Not a theorem: "the caller's input buffers are left unmodified" — model functions take
+   immutable lists; the Go side is checked by the suite (hash before/after every call; finding
+   F22, repaired: the JPEG 2000 parser merged tile-parts into the caller's buffer).
+   KNOWN, NOT REPAIRED (finding on C10's size clause): with BitsAllocated = 16 and
+   BitsStored <= 8 the codecs .50 .51 .57 .70 .80 .81 .90 .91 .92 .93 pick the sample width from
+   BitsStored: decoded frames have half the required length and the lossless ones do not round
+   trip.  Suite signatures c10:<ts>:decoded-length:alloc16-stored<=8 and
+   c10:<ts>:lossless-mismatch:alloc16-stored<=8. *)
